@@ -192,6 +192,9 @@ def run_fls(case, res):
     from ghedesigner.utilities import eskilson_log_times
 
     coords = field_coords(case["field"])
+    if case.get("shift"):
+        # the same field in map coordinates (easting / northing of a national grid): a g-function does not depend on where the field sits
+        coords = [(x + case["shift"][0], y + case["shift"][1]) for x, y in coords]
     H, D, rb = case["H"], case["D"], case["rb"]
     m = scenarios.build_manager("nearsquare", do_set_design=False)
     alpha = m._soil.k / m._soil.rhoCp
@@ -267,6 +270,9 @@ def main(run: core.Run, only=None):
         big = f[0] == "rect" and f[1] * f[2] > 36
         for H, D, rb in ([(60.0, 1.0, 0.055), (135.0, 4.0, 0.075)] if (quick or big) else [(h, d, r) for h in (60.0, 135.0) for d in (1.0, 4.0) for r in (0.055, 0.075)]):
             fl.append({"family": "fls", "field": f, "H": H, "D": D, "rb": rb, "stride": 6 if big else 3})
+    for f in ([["rect", 3, 4, 5.0], ["L", 3, 3, 6.0], ["list", [[0, 0], [4.3, 1.1], [9.9, 0.4], [2.2, 7.7]]]] + ([] if quick else [["rect", 2, 6, 5.0], ["U", 4, 3, 5.0]])):
+        for shift in ([431250.0, 4581362.0], [1200.0, 35000.0]):
+            fl.append({"family": "fls", "field": f, "H": 100.0, "D": 2.0, "rb": 0.075, "stride": 3, "shift": shift})
     run.drive(fl, family="fls-anchor")
     return run.finish(
         rule="join: H x soil lattice through the real grab_g_function; interpolation: all 31 subsets of 5 stored heights x each stored "
